@@ -321,10 +321,25 @@ def c03_b(ctx: Ctx):
             continue
         out += _resets_after(ctx, R, f, st, obj, path_d, "the id change")
     # the reset helper called for every handle copy on an id change must leave the shared state point object attached
-    rs = method_resets(ctx, "signac.job:Job._initialize_lazy_properties")
-    bad_fields = sorted(rs & {"_statepoint_requires_init", "_statepoint", "_project", "_id"})
-    ilp = ctx.fn("signac.job:Job._initialize_lazy_properties")
-    if bad_fields:
+    ILP = "signac.job:Job._initialize_lazy_properties"
+    if ILP not in ctx.prog.funcs:
+        # the reset helper was written out at its users: what each id write site resets itself was judged above; the re-key loop must not reset the shared fields
+        sv = ctx.fn("signac.job:_StatePointDict._save")
+        shared = sorted({t.attr for n in body_nodes(sv) if isinstance(n, ast.Assign) for t in n.targets if isinstance(t, ast.Attribute)
+                         and t.attr in ("_statepoint_requires_init", "_statepoint", "_project")})
+        kx = ILP + "|scope"
+        if shared:
+            out.append(ctx.viol(R, sv, sv.node, f"the re-key also resets {shared} on every handle copy: each copy builds a private state point object and stops following later re-keys", construct=kx))
+        else:
+            out.append(ctx.ok(R, sv, sv.node, "no reset helper: the re-key resets only lazily created per-handle fields itself", construct=kx))
+        rs, bad_fields, ilp = set(), [], None
+    else:
+        rs = method_resets(ctx, ILP)
+        bad_fields = sorted(rs & {"_statepoint_requires_init", "_statepoint", "_project", "_id"})
+        ilp = ctx.fn(ILP)
+    if ilp is None:
+        pass
+    elif bad_fields:
         out.append(ctx.viol(R, ilp, ilp.node, f"_initialize_lazy_properties also resets {bad_fields}; _StatePointDict._save calls it on every handle copy after a re-key, so each copy builds a private "
                             "state point object and stops following later re-keys made through the other copies", construct=ilp.qual + "|scope"))
     else:
